@@ -357,6 +357,20 @@ where
         let welcome_preview = self.preview_welcome(&welcome.wrapper_event_id, &welcome.event)?;
         let mls_group = welcome_preview.staged_welcome.into_group(&self.provider)?;
 
+        // The state joined is the inviter's state right after its commit: nothing is queued
+        // there. Proposals still stored under this MLS group id from an earlier membership
+        // (the member's own request to leave, typically) would be loaded into the new state
+        // and keep the member from sending until the next commit.
+        {
+            use openmls_traits::storage::StorageProvider as _;
+            self.provider
+                .storage()
+                .clear_proposal_queue::<openmls::group::GroupId, hash_ref::ProposalRef>(
+                    mls_group.group_id(),
+                )
+                .map_err(|e| Error::Group(e.to_string()))?;
+        }
+
         // Update the welcome to accepted
         let mut welcome = welcome.clone();
         welcome.state = welcome_types::WelcomeState::Accepted;
